@@ -1,8 +1,8 @@
 import Slu.Model.QSelect
 import Slu.Model.Ilu
 /-
-C15 — the row dropping of the incomplete LU: `ilu_[sd]drop_row` (SRC/ilu_ddrop_row.c:62-356,
-ilu_sdrop_row.c likewise), level **B** for everything that is comparison, row movement and index
+C15 — the row dropping of the incomplete LU: `ilu_[sdcz]drop_row` (SRC/ilu_ddrop_row.c:62-356,
+ilu_sdrop_row.c, ilu_cdrop_row.c, ilu_zdrop_row.c likewise; scalar instances `opsF64`, `opsF32`, `opsC64`, `opsC32`), level **B** for everything that is comparison, row movement and index
 arithmetic, following statement order.  Core Lean only.  (`qselect`: Slu/Model/QSelect.lean.)
 
 LAYOUT.  The routine works on the supernode `first..last`, an `m x n` column-major block of `lusup`
